@@ -4,7 +4,7 @@ from cache_common import *
 
 ASSUME = [
     "a crash is 'the process stops between two file operations': completed writes persist (no power-failure / fsync model)",
-    "one adverse event per Put: a misbehaving source reader, or one failing operation (EIO; writes may be short), or a stop",
+    "one adverse event per Put: a misbehaving source reader, or one failing operation (EIO; writes may be short), or a stop - plus, for the index entry, a write cut at any byte followed at once by a stop (mode tear)",
     "file operations are atomic with respect to each other (single process under the cooperative scheduler); real SIGKILLs of a "
     "separate writer process complement this in the thorough tier",
     "contents: empty, 1 byte, two 21-byte contents of equal length; start states: empty, output trimmed away, output shared with "
